@@ -81,6 +81,10 @@ def cpython_oracle(files, case):
             "service": lambda f: f,
             "task": None,
         }
+        import builtins
+
+        builtins.pyscript_compile = lambda f: f
+        builtins.pyscript_executor = lambda f: f
         exc = None
         try:
             exec(compile(files["hello.py"], main, "exec"), g)  # pylint: disable=exec-used
@@ -111,6 +115,11 @@ def cpython_oracle(files, case):
                 exc = None
         return chain
     finally:
+        import builtins
+
+        for nm in ("pyscript_compile", "pyscript_executor"):
+            if hasattr(builtins, nm):
+                delattr(builtins, nm)
         sys.path[:] = saved_path
         for m in ("pvmod", "pvlmod"):
             sys.modules.pop(m, None)
